@@ -36,7 +36,7 @@ func TestMain(m *testing.M) {
 	if err != nil {
 		panic(err)
 	}
-	arts.ExcludeMSINoMini = true
+
 	arts.ExcludePEFewDirs = true
 	arts.ExcludeJAREdgeSpace = true
 	env, err = pipe.Setup(workDir)
